@@ -122,6 +122,7 @@ def run(tier):
         calls = [n.get("callee") or "" for n in f.stmts.values() if n["k"] in ("CallExpr", "CXXMemberCallExpr")]
         uses_helper = any(c.endswith("::findSingleEigenValue") for c in calls)
         C05.orientation_rule(rep, f)
+        C05.index_rule(rep, f)
         sub = Report("C24", tier, "other", RULE)
         C05.guard_rule(sub, f)
         n = sub.analysed.get("divisions by an eigenvalue difference", 0)
